@@ -11,7 +11,7 @@ their source / flags / inputs, *defined* refs); derived members are never stored
 "rebuilt from the definitions only" side of every differential oracle.  Nothing here looks at private
 modelx state except through `describe`, which uses the same accessors as common.describe_model.
 """
-import copy, inspect, itertools
+import copy, inspect, itertools, time
 from common import mx, is_iface
 from modelx.core.errors import DeletedObjectError
 
@@ -40,7 +40,10 @@ def formula_src(f):
         return f
     parts = []
     if f.get("base") is not None:
-        parts.append("'base': _model.%s" % ".".join(f["base"]))
+        if f.get("base_key") == "bases":
+            parts.append("'bases': [_model.%s]" % ".".join(f["base"]))
+        else:
+            parts.append("'base': _model.%s" % ".".join(f["base"]))
     if f.get("refs") is not None:
         parts.append("'refs': {%s}" % ", ".join("%r: %s" % (k, e) for k, e in f["refs"].items()))
     body = "{%s}" % ", ".join(parts) if parts else "None"
@@ -186,6 +189,16 @@ class Spec:
         elif k == "set_input":
             _, cp, key, v = op
             self.space(cp[:-1])["cells"][cp[-1]]["inputs"][key] = v
+        elif k == "clear_model":                   # documented: clears input values too
+            for _, s in self.walk():
+                for c in s["cells"].values():
+                    c["inputs"] = {}
+        elif k == "clear_space":                   # documented: recursive, inputs included
+            p = tuple(op[1])
+            for q, s in self.walk():
+                if q[:len(p)] == p:
+                    for c in s["cells"].values():
+                        c["inputs"] = {}
         elif k in NONDEF_OPS:
             pass
         else:
@@ -655,6 +668,7 @@ def run_jobs(res, jobs, worker, nproc=None, chunksize=1):
     import multiprocessing as mp, os
     nproc = nproc or min(14, os.cpu_count() or 1)
     complete = True
+    deadline = res.t0 + res.budget_s * 0.92      # leave room for the jobs in flight and for writing the result
     if nproc <= 1 or len(jobs) <= 1:
         it = map(worker, jobs)
         pool = None
@@ -674,7 +688,7 @@ def run_jobs(res, jobs, worker, nproc=None, chunksize=1):
                 for nt in r.get("notes", ()):
                     if nt not in res.notes and len(res.notes) < 12:
                         res.notes.append(nt)
-            if res.expired():
+            if time.time() > deadline:
                 complete = False
                 break
     finally:
@@ -682,3 +696,32 @@ def run_jobs(res, jobs, worker, nproc=None, chunksize=1):
             pool.terminate()
             pool.join()
     return complete
+
+
+# ---------------------------------------------------------------------------------------------- exceptions
+
+def raised_inside_modelx(exc):
+    """True when the innermost frame of the exception's traceback is modelx code (an unexpected exception from
+    the library where the property says the operation succeeds = a violation; anything else = a driver fault)"""
+    import traceback as _tb, os as _os
+    frames = _tb.extract_tb(exc.__traceback__)
+    if not frames:
+        return False
+    root = _os.path.realpath(_os.path.dirname(mx.__file__))
+    return _os.path.realpath(frames[-1].filename).startswith(root)
+
+
+def guarded(fn, rec_key, tags, what_prefix):
+    """run fn() -> record; an exception escaping from inside modelx becomes a failing record"""
+    import traceback as _tb
+    try:
+        return fn()
+    except Exception as e:
+        if not raised_inside_modelx(e):
+            raise
+        last = _tb.extract_tb(e.__traceback__)[-1]
+        return {"key": rec_key, "nontrivial": True,
+                "fail": dict(tags=tuple(tags) + ("unexpected-exception", type(e).__name__),
+                             what="%s: %s: %s (at %s:%d %s)" % (what_prefix, type(e).__name__, e,
+                                                               last.filename.split("/modelx/")[-1], last.lineno, last.name),
+                             script=None, case=rec_key)}
